@@ -161,6 +161,9 @@ func (wr *Writer) tightStruct(rv reflect.Value, si *sinfo) {
 	}
 	var stat appendStatus
 	for _, fi := range fields {
+		if 1 < len(fi.index) && nilEmbedded(rv, fi.index) {
+			continue
+		}
 		if 0 < addr {
 			wr.buf, v, stat = fi.Append(fi, wr.buf, rv, addr, !wr.HTMLUnsafe)
 		} else {
